@@ -142,13 +142,37 @@ def run_inplace_growth(chk, facts, rule='C03-R21'):
     chk.rule(rule, 'the inserting string primitives without a capacity argument (strprep, strins) write into a buffer of '
              'unknown size only behind a comparison with the capacity of the dynamic string that owns it (tab expansion of '
              'stored macro lines)', min_instances=1)
-    from .c03_bounds import array_size
+    from .c03_bounds import array_size, is_generator
     P = facts.program('asl')
     n = 0
+    # functions that work on a dynamic line buffer: called with an as_dynstr or with its p_str
+    dyn = set()
     for f in P.all_funcs():
         if f.entry is None:
             continue
-        for b, i, ln, c in f.calls(('strprep', 'strins')):
+        for b, i, ln, c in f.calls():
+            g = P.resolve(f.unit, callee_name(c) or '')
+            if g is None:
+                continue
+            for a in c[2]:
+                if any(isinstance(m, (list, tuple)) and m and m[0] == 'm' and m[2] == 'as_dynstr.p_str' and nocast(m[1])[0] in GLOBKINDS
+                       for m in walk(a)) or \
+                        (nocast(a)[0] == 'u' and nocast(a)[1] == '&' and nocast(nocast(a)[2])[0] in GLOBKINDS and
+                         ((P.ginfo(f, nocast(nocast(a)[2])[0], nocast(nocast(a)[2])[1]) or {}).get('type') or {}).get('t') == 'as_dynstr_t'):
+                    dyn.add(g.qname)
+    for f in P.all_funcs():
+        if f.entry is None:
+            continue
+        sites = list(f.calls(('strprep', 'strins')))
+        if f.unit.name != 'strutil.c' and not is_generator(f.unit.name) and f.qname in dyn:
+            # an overlapping memmove() towards higher addresses inside one buffer lengthens its contents, too
+            for b, i, ln, c in f.calls('memmove'):
+                d, s_ = nocast(c[2][0]), nocast(c[2][1])
+                bd = {tuple(m) for m in walk(d) if isinstance(m, (list, tuple)) and len(m) == 2 and m[0] in ('l', 'p')}
+                bs = {tuple(m) for m in walk(s_) if isinstance(m, (list, tuple)) and len(m) == 2 and m[0] in ('l', 'p')}
+                if (bd & bs) and d != s_:
+                    sites.append((b, i, ln, c))
+        for b, i, ln, c in sites:
             d = nocast(c[2][0])
             if d[0] in ('l', 'g', 'gs', 'm', 'i') and array_size(P, f, d) is not None:
                 continue                       # fixed-size array: decided by the per-buffer length rules
@@ -157,7 +181,31 @@ def run_inplace_growth(chk, facts, rule='C03-R21'):
             def cap(lab):
                 return edge_has_atom(lab, lambda a: a[0] == 'cmp' and any(
                     isinstance(m, tuple) and m and m[0] == 'm' and m[2] == 'as_dynstr.capacity' for x in (a[2], a[3]) for m in walk(x)))
-            ok, w = f.guarded(b, i, cap)
+            iparams = {('p', q['name']) for q in f.params if not q['type'].get('ptr')}
+
+            def cap2(lab):
+                # the capacity may be handed in as a parameter: strlen(buffer) (+ growth) compared with an integer parameter
+                # "current length + growth" against a limit
+                return edge_has_atom(lab, lambda a: a[0] == 'cmp' and a[1] in ('<', '<=', '>', '>=') and
+                                     isinstance(a[2], tuple) and a[2] and a[2][0] == 'b' and a[2][1] == '+' and
+                                     any(isinstance(m, tuple) and m and m[0] == 'call' and m[1] == ('fn', 'strlen') for m in walk(a[2])))
+
+            def is_cap_cond(cnd):
+                return any(isinstance(m, (list, tuple)) and m and m[0] == 'm' and m[2] == 'as_dynstr.capacity' for m in walk(cnd))
+            # "the contents do not get longer": the false edge of a condition under which (and only under which) the
+            # capacity is compared
+            nogrow = set()
+            for bb, blk in f.blocks.items():
+                cnd = blk.get('cond')
+                if cnd is None or len(blk['succ']) != 2 or is_cap_cond(cnd):
+                    continue
+                st, sf = blk['succ']
+                if st is None or st < 0 or sf is None or sf < 0:
+                    continue
+                rt = f.reach_forward([st], block_stop=lambda x, sf=sf: x == sf)
+                if any(f.blocks[x].get('cond') is not None and is_cap_cond(f.blocks[x]['cond']) for x in rt if x != sf):
+                    nogrow.add(id(cnd))
+            ok, w = f.guarded(b, i, lambda l: cap(l) or cap2(l) or (l is not None and l[0] == 'F' and id(l[1]) in nogrow))
             chk.ob(rule, '%s:%s:%s' % (f.unit.name, f.name, callee_name(c)), ok, f.loc(ln),
                    'capacity compared before the insertion' if ok else
                    '%s() lengthens %s in place; nothing on the way here (%s) compares the needed length with the capacity of '
